@@ -360,6 +360,29 @@ class C19(Prop):
             self._inv = {f["name"]: dict(f, sig=sigs[f["name"]]) for f in res}
         return self._inv
 
+    def extra_evidence(self):
+        """the per-(function, parameter) obligations computed by the Lean analysis on the regenerated IR"""
+        d = core.Driver()
+        try:
+            n = ok = 0
+            broken, unknown_calls = [], []
+            for name, f in sorted(self.inv().items()):
+                rep = d.call("c19.analyse", np=f["np"], prog=f["ir"])
+                w = {f["params"][i] for i in rep["write"]}
+                r = {f["params"][i] for i in rep["ret"]}
+                unknown_calls += [f"{name}: {x}" for x in f["diag"]]
+                for p in f["params"]:
+                    n += 1
+                    good = (p not in w or (name, p) in ALLOWED_WRITES) and (p not in r or alias_allowed(name, p, f["kind"]))
+                    ok += good
+                    if not good:
+                        broken.append(f"{name}({p})")
+        finally:
+            d.close()
+        return {"obligations": n, "discharged": ok,
+                "coverage": {"inventoried_functions": len(self.inv()), "function_parameter_obligations": n,
+                             "obligations_broken": broken[:50], "translator_unknown_calls": sorted(set(unknown_calls))[:50]}}
+
     def targeted(self, tier):
         for name in sorted(self.inv()):
             yield {"func": name, "aseed": 0}
